@@ -244,6 +244,19 @@ class CFG:
                                 work.append(t)
         return out
 
+    def necessary_branches(self, node: Node) -> List[Tuple[Node, str]]:
+        """branch edges (test, label) that every path from the entry to `node` takes at least once: the conjunction of conditions under
+        which the node executes (control_deps gives the union over alternative routes, e.g. the fall-through of an earlier `if a and b: raise`)"""
+        out = []
+        for t in self.nodes:
+            if t.kind != "test" or t is node:
+                continue
+            for s, l in t.succ:
+                reach = self.reachable_from([self.entry], follow=lambda n, m, lab, t=t, s=s, l=l: not (n is t and m is s and lab == l))
+                if node.id not in reach:
+                    out.append((t, l))
+        return out
+
     # ---------------------------------------------------------------- reachability / paths
     def reachable_from(self, starts, avoid: Set[int] = frozenset(), follow=None) -> Set[int]:
         seen = set()
